@@ -140,18 +140,17 @@ def wait_internal(chk, prog, names, m):
 def writers(chk, prog, names, cg, fa):
     wr = fa.writers(names.CTL, "frame_clocks")
     short = lambda p: p.split("::")[-1]
-    got = set(short(p) for p in wr)
     allowed = {"wait_internal", "new_frame", "process_z80r_block"}
-    chk.check(got <= allowed and {"wait_internal", "new_frame"} <= got, "T-WRITERS/ZXController.frame_clocks",
+    # private helpers / closures / renamed private functions are attributed to their callers (corecommon)
+    got = cc.effective_writers(prog, cg, fa, names, names.CTL, "frame_clocks", allowed)
+    chk.check(got <= allowed and {"wait_internal"} <= got, "T-WRITERS/ZXController.frame_clocks",
               "functions storing to frame_clocks: %s; allowed %s" % (sorted(got), sorted(allowed)),
               {"sites": [repr(s) for v in wr.values() for s in v]})
-    chk.count("frame-clock-writers", len(got))
-    wr = fa.writers(names.CTL, "passed_frames")
-    got = set(short(p) for p in wr)
+    chk.count("frame-clock-writers", len(set(short(p) for p in wr)))
+    got = cc.effective_writers(prog, cg, fa, names, names.CTL, "passed_frames", {"wait_internal", "reset_frame_counter"})
     chk.check(got == {"wait_internal", "reset_frame_counter"}, "T-WRITERS/ZXController.passed_frames",
               "functions storing to passed_frames: %s" % sorted(got))
-    rd = fa.readers(names.CTL, "passed_frames")
-    got = set(short(p) for p in rd) - {"wait_internal"}
+    got = cc.effective_writers(prog, cg, fa, names, names.CTL, "passed_frames", {"wait_internal", "frames_count", "reset_frame_counter"}, readers=True) - {"wait_internal", "reset_frame_counter"}
     chk.check(got == {"frames_count"}, "T-WRITERS/ZXController.passed_frames/readers",
               "passed_frames is read by %s (only frames_count may)" % sorted(got))
     callers = set(short(s.fn.path) for s in cg.callers_of(names.ctl("frames_count")))
